@@ -323,8 +323,8 @@ def c_refit(ctx, case):
 
 
 def g_rows(draw):
-    c = gen.big_rows_case(draw)
-    c["K"] = gen.integer(draw, 1, 3)
+    c = gen.big_rows_case(draw, many_clusters=True)
+    c["K"] = gen.integer(draw, 1, 3) if c["k"] < 32 else 1
     c["dask"] = gen.boolean(draw)
     c["isolate"], c["order_seed"] = gen.boolean(draw), gen.integer(draw, 0, 999)
     return c
